@@ -225,6 +225,17 @@ Proof.
         -- exists y0. split; [now rewrite setg_other | exact Hh0].
       * intros k z o0 Hk Hp. destruct (setg_lookup _ _ _ _ _ Hk) as [[_ H1]|[_ [z0 [_ ->]]]]; [eauto | discriminate].
       * intros k z r q Hk Hp. eapply dres_setg; eauto. intros r0. congruence.
+    + (* publish: fields written, done closed *)
+      unfold Inv; cbn [prom cs gs]. rewrite setg_length. repeat split; try assumption.
+      * intros k z Hk Hz. destruct (setg_lookup _ _ _ _ _ Hk) as [[_ H1]|[-> [z0 [Hz0 ->]]]]; [eauto|].
+        unfold holds in Hz; cbn [gp] in Hz. apply (I1 _ y G). unfold holds. now rewrite Ep.
+      * apply I2; assumption.
+      * destruct (I2 _ H) as [_ [y0 [Hy0 Hh0]]]. destruct (Nat.eq_dec g0 g) as [->|Hne].
+        -- eexists. split; [apply setg_same; exact G|]. unfold holds; cbn [gp].
+           rewrite G in Hy0. inversion Hy0; subst y0. unfold holds in Hh0. now rewrite Ep in Hh0.
+        -- exists y0. split; [now rewrite setg_other | exact Hh0].
+      * intros k z o0 Hk Hp. destruct (setg_lookup _ _ _ _ _ Hk) as [[_ H1]|[_ [z0 [_ ->]]]]; [eauto | discriminate].
+      * intros k z r0 q Hk Hp. eapply dres_setg; eauto. intros r1. congruence.
 Qed.
 
 Theorem run_inv es : Inv (run es).
@@ -280,7 +291,7 @@ Definition SuccRel (s0 : st) (g : nat) (v : N) (s : st) : Prop :=
 
 Lemma succeeded_prom s g v : Inv s -> succeeded s g v -> prom s = Some g.
 Proof.
-  intros HI [y [G Hy]]. inv_names HI. apply (I1 _ _ G). unfold holds. destruct Hy as [-> | ->]; reflexivity.
+  intros HI [y [G Hy]]. inv_names HI. apply (I1 _ _ G). unfold holds. destruct Hy as [-> | [-> | ->]]; reflexivity.
 Qed.
 
 Lemma succrel_init s g v : Inv s -> succeeded s g v -> SuccRel s g v s.
@@ -323,7 +334,7 @@ Proof.
     + intros k z Hk Hl. destruct (setc_lookup _ _ _ _ _ Hk) as [[_ H1]|[-> [z0 [Hz0 ->]]]]; [eauto|]. cbn [cp].
       destruct (HL _ _ G Hl) as [H|[H|[H|[src H]]]]; rewrite Ep in H; try discriminate.
       inversion H; subst p. unfold done_res in ED. rewrite Gg in ED.
-      destruct Hyg as [Hy|Hy]; rewrite Hy in ED; [discriminate|]. inversion ED; subst r. auto.
+      destruct Hyg as [Hy|[Hy|Hy]]; rewrite Hy in ED; try discriminate. inversion ED; subst r. auto.
   - (* WakeCtx *)
     destruct (nth_error (cs s) a) as [x|] eqn:G; [|exact Hsame].
     destruct (cp x) eqn:Ep; try exact Hsame.
@@ -344,18 +355,23 @@ Proof.
     exfalso. pose proof HI as HIc. inv_names HIc.
     assert (Hh : holds y = true) by (unfold holds; now rewrite Ep).
     pose proof (I1 _ _ G Hh) as E. rewrite HP in E. inversion E; subst g'. rewrite Gg in G. inversion G; subst y.
-    destruct Hyg as [Hy|Hy]; rewrite Hy in Ep; discriminate.
+    destruct Hyg as [Hy|[Hy|Hy]]; rewrite Hy in Ep; discriminate.
   - (* GStep *)
     destruct (nth_error (gs s) g') as [y|] eqn:G; [|exact Hsame].
     destruct (gp y) eqn:Ep; try exact Hsame.
     + exfalso. pose proof HI as HIc. inv_names HIc.
       assert (Hh : holds y = true) by (unfold holds; now rewrite Ep).
       pose proof (I1 _ _ G Hh) as E. rewrite HP in E. inversion E; subst g'. rewrite Gg in G. inversion G; subst y.
-      destruct Hyg as [Hy|Hy]; rewrite Hy in Ep; discriminate.
+      destruct Hyg as [Hy|[Hy|Hy]]; rewrite Hy in Ep; discriminate.
     + cbn [prom cs gs]. rewrite setg_length. refine (conj HP (conj _ (conj HLg (conj HLc HL)))).
       destruct (Nat.eq_dec g g') as [<-|Hne].
       * rewrite Gg in G. inversion G; subst y. eexists. cbn [gs]. split; [apply setg_same; exact Gg|]. cbn [gp].
-        destruct Hyg as [Hy|Hy]; rewrite Hy in Ep; [|discriminate]. inversion Ep; subst o. right. reflexivity.
+        destruct Hyg as [Hy|[Hy|Hy]]; rewrite Hy in Ep; try discriminate. inversion Ep; subst o. right. left. reflexivity.
+      * exists yg. cbn [gs]. split; [now rewrite setg_other | exact Hyg].
+    + cbn [prom cs gs]. rewrite setg_length. refine (conj HP (conj _ (conj HLg (conj HLc HL)))).
+      destruct (Nat.eq_dec g g') as [<-|Hne].
+      * rewrite Gg in G. inversion G; subst y. eexists. cbn [gs]. split; [apply setg_same; exact Gg|]. cbn [gp].
+        destruct Hyg as [Hy|[Hy|Hy]]; rewrite Hy in Ep; try discriminate. inversion Ep; subst r. right. right. reflexivity.
       * exists yg. cbn [gs]. split; [now rewrite setg_other | exact Hyg].
 Qed.
 
@@ -378,7 +394,7 @@ Proof.
     destruct (gp y) eqn:Ep; try discriminate. inversion Hd; subst r.
     assert (Hh : holds y = true) by (unfold holds; now rewrite Ep).
     pose proof (I1 _ _ G Hh) as E. rewrite HP in E. inversion E; subst p.
-    destruct HS' as [y' [G' Hy']]. rewrite G in G'. inversion G'; subst y'. destruct Hy' as [Hy|Hy]; rewrite Hy in Ep; congruence.
+    destruct HS' as [y' [G' Hy']]. rewrite G in G'. inversion G'; subst y'. destruct Hy' as [Hy|[Hy|Hy]]; rewrite Hy in Ep; congruence.
   - pose proof HI as HIc. inv_names HIc. destruct src as [p|]; [|specialize (I7 _ _ _ H H0); discriminate].
     pose proof (I6 _ _ _ _ H H0) as Hd. unfold dres in Hd. destruct (nth_error (gs (fold_left step es' (run es))) p) as [y|] eqn:G; [|discriminate].
     destruct (gp y) eqn:Ep; try discriminate. inversion Hd; subst r.
@@ -403,7 +419,7 @@ Definition FailRel (s0 : st) (g : nat) (s : st) : Prop :=
 
 Lemma failed_not_holds s g : failed s g -> exists y, nth_error (gs s) g = Some y /\ holds y = false.
 Proof.
-  intros [y [G [[o [Hy Ho]]|[r [Hy Hr]]]]]; exists y; (split; [exact G|]); unfold holds; rewrite Hy; assumption.
+  intros [y [G [[o [Hy Ho]]|[[r [Hy Hr]]|[r [Hy Hr]]]]]]; exists y; (split; [exact G|]); unfold holds; rewrite Hy; assumption.
 Qed.
 
 Lemma failed_prom s g : Inv s -> failed s g -> prom s <> Some g /\ g < length (gs s) /\ forall p, prom s = Some p -> g < p.
@@ -478,19 +494,24 @@ Proof.
     destruct (nth_error (gs s) g') as [y|] eqn:G; [|exact Hsame].
     destruct (gp y) eqn:Ep; try exact Hsame.
     refine (conj _ (conj HLc HL)). apply failed_setg_other; [|exact HF].
-    intros ->. destruct HF as [y' [G' [[o' [Hy' _]]|[r' [Hy' _]]]]]; rewrite G in G'; inversion G'; subst y'; congruence.
+    intros ->. destruct HF as [y' [G' [[o' [Hy' _]]|[[r' [Hy' _]]|[r' [Hy' _]]]]]]; rewrite G in G'; inversion G'; subst y'; congruence.
   - (* GStep *)
     destruct (nth_error (gs s) g') as [y|] eqn:G; [|exact Hsame].
     destruct (gp y) eqn:Ep; try exact Hsame.
     + refine (conj _ (conj HLc HL)).
       destruct HF as [y' [G' H']]. exists y'. cbn [gs]. split; [|exact H'].
       rewrite setg_other; [exact G'|]. intros ->. rewrite G in G'; inversion G'; subst y'.
-      destruct H' as [[o' [Hy' _]]|[r' [Hy' _]]]; congruence.
+      destruct H' as [[o' [Hy' _]]|[[r' [Hy' _]]|[r' [Hy' _]]]]; congruence.
     + refine (conj _ (conj HLc HL)).
       destruct (Nat.eq_dec g g') as [<-|Hne]; [|apply failed_setg_other; [congruence | exact HF]].
       destruct HF as [y' [G' H']]. rewrite G in G'. inversion G'; subst y'.
-      eexists. cbn [gs]. split; [apply setg_same; exact G|]. cbn [gp]. right. eexists. split; [reflexivity|].
-      rewrite is_ok_final. destruct H' as [[o' [Hy' Ho']]|[r' [Hy' _]]]; congruence.
+      eexists. cbn [gs]. split; [apply setg_same; exact G|]. cbn [gp]. right. left. eexists. split; [reflexivity|].
+      rewrite is_ok_final. destruct H' as [[o' [Hy' Ho']]|[[r' [Hy' _]]|[r' [Hy' _]]]]; congruence.
+    + refine (conj _ (conj HLc HL)).
+      destruct (Nat.eq_dec g g') as [<-|Hne]; [|apply failed_setg_other; [congruence | exact HF]].
+      destruct HF as [y' [G' H']]. rewrite G in G'. inversion G'; subst y'.
+      eexists. cbn [gs]. split; [apply setg_same; exact G|]. cbn [gp]. right. right. eexists. split; [reflexivity|].
+      destruct H' as [[o' [Hy' Ho']]|[[r' [Hy' Hr']]|[r' [Hy' _]]]]; congruence.
 Qed.
 
 Theorem error_allows_retry es g :
@@ -875,16 +896,23 @@ Fixpoint once_from (prefix : list (list N)) (fuel : nat) (h : hst) (m : monst) :
   end.
 
 Definition once_seeds : list (list (list N)) :=
- [ [[1;0];[3;0;0];[1;0];[3;2;0];[5;1;1];[3;1;0];[1;0];[3;3;0];[5;4;0];[3;4;0]];
-   [[1;0];[3;0;0];[1;0];[3;2;0];[4;0];[5;1;1];[3;1;0];[3;1;0]];
+ [ (* attempt 1 failed and is parked before SetResult, attempt 4 succeeded and sits inside SetResult (window) *)
+   [[1;0];[3;0;0];[1;0];[3;2;0];[5;1;1];[3;1;0];[1;0];[3;3;0];[5;4;0];[3;4;0]];
+   (* ... and published *)
+   [[1;0];[3;0;0];[1;0];[3;2;0];[5;1;1];[3;1;0];[1;0];[3;3;0];[5;4;0];[3;4;0];[3;4;0]];
+   (* spawner cancelled, failed attempt resolved with Canceled, the other waiter back at the gate *)
+   [[1;0];[3;0;0];[1;0];[3;2;0];[4;0];[5;1;1];[3;1;0];[3;1;0];[3;1;0]];
    [[1;0];[4;0];[3;0;1];[1;0];[3;2;0];[5;1;2];[3;1;0]];
-   [[1;0];[3;0;0];[1;0];[3;2;0];[5;1;2];[3;1;0];[3;1;0];[3;0;0]];
+   [[1;0];[3;0;0];[1;0];[3;2;0];[5;1;2];[3;1;0];[3;1;0];[3;1;0];[3;0;0]];
+   (* success inside SetResult (window) with a cancelled caller parked at the gate *)
    [[1;0];[3;0;0];[5;1;0];[3;1;0];[1;0];[4;2]];
+   [[1;0];[3;0;0];[5;1;0];[3;1;0];[3;1;0];[1;0];[4;2]];
+   (* failed attempt inside SetResult (window), a new caller at the gate *)
    [[1;0];[3;0;0];[1;0];[3;2;0];[5;1;1];[3;1;0];[3;1;0];[1;0]] ]%N.
 
 Lemma once_monitors_accept_model_bounded :
   N.ltb 0 (once_sweep 7 hinit monit) = true /\
-  forallb (fun p => N.ltb 0 (once_from p 5 hinit monit)) once_seeds = true.
+  forallb (fun p => N.ltb 0 (once_from p 4 hinit monit)) once_seeds = true.
 Proof. vm_compute. split; reflexivity. Qed.
 
 Definition memo_alphabet (s : mst) : list (list N) :=
